@@ -39,8 +39,8 @@ def _strip(fn):
     return fn
 
 
-WORLDS_QUICK = ['chain3', 'mount2', 'mount2p', 'uses2', 'parts_ext', 'optns', 'longval']
-WORLDS_ALL = ['chain3', 'diamond', 'mount2', 'mount2p', 'uses2', 'parts_ext', 'optns', 'longval', 'parts', 'optpat', 'ctxmove', 'types_line']
+WORLDS_QUICK = ['chain3', 'mount2', 'mount2p', 'uses2', 'parts_ext', 'optns', 'longval', 'ctxshare']
+WORLDS_ALL = ['chain3', 'diamond', 'mount2', 'mount2p', 'uses2', 'parts_ext', 'optns', 'longval', 'ctxshare', 'parts', 'optpat', 'ctxmove', 'types_line']
 
 
 def plan(tier):
@@ -61,6 +61,9 @@ def plan(tier):
             d0, d1 = (3, 4) if (tier == 'quick' or not deep) else (3, 5)
             if tier != 'quick':
                 sp['variants'] = sp['variants'][:3] if deep else sp['variants'][:4]
+        if name == 'ctxshare':
+            sp = specs.build(desc, ops=('new', 'value', 'restart'), slots=2)
+            d0, d1 = 3, 4
         if tier == 'quick':
             sp['variants'] = sp['variants'][:3] if name not in ('chain3', 'longval') else [v for v in sp['variants'] if v in ('v0', 'v1', 'vnull', 'vmid', 'vtext', 'vtext2')]
         out.append((desc, sp, d0, d1))
